@@ -58,7 +58,7 @@ func init() {
 			"encoding/csv with FieldsPerRecord == 0 returns records with as many fields as the first record",
 		},
 		Rules: []Rule{
-			{Name: "G1", Doc: "no nil dereference (E1)", MinInstances: 100, Run: func(c *Ctx) {
+			{Name: "G1", Doc: "no nil dereference (E1)", MinInstances: 70, Run: func(c *Ctx) {
 				e, scope := c05Engine(c)
 				runG1(c, e)
 				runCsvContract(c, scope)
